@@ -95,6 +95,14 @@ Proof. exact wrong_root_refused. Qed.
 Theorem C06_trailing_content_refused : forall doc, authn_of_doc true doc = None.
 Proof. exact trailing_content_refused. Qed.
 
+(** ... and what the schema does not name cannot influence the handler: attributes and child elements of the root that match
+    no field of samlp.AuthnRequestType, appended to any request, leave the decoded request unchanged *)
+Theorem C06_unknown_content_ignored : forall sp lc attrs kids extra_attrs extra_kids,
+  forallb (attr_unmatched areq_infos) extra_attrs = true ->
+  forallb (fun n => match n with RElem s l _ _ => elem_unmatched areq_infos s l | RText _ => true end) extra_kids = true ->
+  authn_of_doc false (RElem sp lc (attrs ++ extra_attrs) (kids ++ extra_kids)) = authn_of_doc false (RElem sp lc attrs kids).
+Proof. exact unknown_content_ignored. Qed.
+
 (** non-vacuity / sensitivity: without the content check the condition fails *)
 Example C06_mutant_rejected : has_tags (firstn 12 sso_steps ++ skipn 13 sso_steps) tags6 = false.
 Proof. vm_compute. reflexivity. Qed.
@@ -113,3 +121,4 @@ Print Assumptions C06_decode_from_source.
 Print Assumptions C06_request_view.
 Print Assumptions C06_wrong_root_refused.
 Print Assumptions C06_trailing_content_refused.
+Print Assumptions C06_unknown_content_ignored.
